@@ -172,6 +172,7 @@ class Model:
         self.store = {} if store is None else store
         self.enabled = True
         self.ticks = {}
+        self.seen = set()
 
     def tick(self, n):
         self.ticks[n] = self.ticks.get(n, 0) + 1
@@ -180,6 +181,7 @@ class Model:
     def section(self, name, key, body):
         s = self.spec["sec"][name]
         if s["cached"] and self.enabled:
+            self.seen.add(name)  # the section's own cache arguments are known to the Cache from now on
             if key in self.store:
                 self.hits += 1
                 return self.store[key]
@@ -348,18 +350,24 @@ def run_history(case, res):
             if backend == "rec":
                 check_log(res, spec, t, Rec.log[nlog:], what, rc, m, rid)
         elif k < 0.63:
+            nlog = len(Rec.log)
             t.cache.invalidate_body()
+            check_invalidate(res, spec, m, "page", "render_body", Rec.log[nlog:], backend, what, rc)
             m.store.pop("render_body", None)
             qstore.pop("render_body", None)
             flags.add(("inv", i, "render_body"))
         elif k < 0.75:
             n = r.choice(["d0", "d1", "b0"])
+            nlog = len(Rec.log)
             t.cache.invalidate_def(n)
+            check_invalidate(res, spec, m, n, "render_" + n, Rec.log[nlog:], backend, what, rc)
             m.store.pop("render_" + n, None)
             qstore.pop("render_" + n, None)
             flags.add(("inv", i, "render_" + n))
         elif k < 0.81:
+            nlog = len(Rec.log)
             t.cache.invalidate_closure("inner")
+            check_invalidate(res, spec, m, "inner", "inner", Rec.log[nlog:], backend, what, rc)
             m.store.pop("inner", None)
             qstore.pop("inner", None)
             flags.add(("inv", i, "inner"))
@@ -418,6 +426,23 @@ def run_history(case, res):
         res.nontrivial("c17", backend, [tt.source for tt in tpls], case["index"], case["j"])
     if res.sample is None:
         res.sample = {"backend": backend, "uris": [tt.uri for tt in tpls], "template": tpls[0].source[:400]}
+
+
+def check_invalidate(res, spec, m, name, key, entries, backend, what, rc):
+    """invalidate_body / invalidate_def / invalidate_closure reach the backend with the key of the section and the same
+    arguments its entries are created with (once a render has made them known; before that, the Template's)"""
+    if backend != "rec":
+        return
+    calls = [(k2, kw) for op, cid, k2, kw in entries if op == "invalidate"]
+    res.count("invalidate_calls_checked")
+    if [k2 for k2, _ in calls] != [key]:
+        res.violate("invalidate-key", "%s: invalidating section %s reached the backend as %r, expected one invalidate(%r)" % (what, name, calls, key), replay_case=rc)
+        return
+    want = expected_kwargs(spec, name) if name in m.seen else dict(spec["tpl_args"])
+    got = {k2: v for k2, v in calls[0][1].items() if k2 != "context"}
+    if got != want:
+        res.violate("invalidate-kwargs", "%s: invalidate(%r) for section %s received %r, its entries are created with %r (section rendered before: %s)" % (
+            what, key, name, got, want, name in m.seen), replay_case=rc)
 
 
 CALLABLE_SECTION = {"render_body": "page", "render_d0": "d0", "render_d1": "d1", "inner": "inner", "render_b0": "b0"}
